@@ -6,6 +6,7 @@
    source on every run (coq/gen/Gen_C14.v), which instantiate C14_resume_footprint / C14_reinitialize. *)
 From CV Require Import Base.Tac Base.Cmp Model.C14_Chain Proofs.C14_Chain.
 From Coq Require String.
+Import String.StringSyntax.
 
 Section Generic.
 Variables Cfg St Rnd Pt Acc : Type.
@@ -189,9 +190,46 @@ Theorem C14_reinitialize : forall (V Rnd : Type) (f : facts) (initS : store V ->
 Proof. exact reinit_from_facts. Qed.
 Print Assumptions C14_reinitialize.
 
+Local Open Scope string_scope.
+(* reinitialize touches no attribute that initialize does not re-bind -- constructor arguments that initialize leaves
+   alone keep their value -- given reinit_ok (every cleared state/history key is re-bound by initialize) *)
+Theorem C14_reinitialize_frame : forall (V : Type) (f : facts) (initS : store V -> store V),
+  reinit_ok f = true ->
+  (forall s a, ~ In a (f_init_w f) -> initS s a = s a) ->
+  forall (none : V) (s : store V) (a : string), ~ In a (f_init_w f) ->
+    initS (clear_store none (f_state f ++ f_hist f) s) a = s a.
+Proof. exact reinit_frame_from_facts. Qed.
+Print Assumptions C14_reinitialize_frame.
+
+(* REFUTED outside the guard reinit_ok: a declared state key that initialize never re-binds is left at the cleared
+   value.  This is exactly NUTS.max_depth (in _STATE_KEYS, bound only in __init__): reinitialize turns a constructed
+   max_depth into the default -- signature NUTS.reinitialize|state-key-not-rebound:max_depth in known_findings.tsv *)
+Theorem C14_reinitialize_refuted :
+  reinit_ok nuts_like = false /\
+  (forall s a, ~ In a (f_init_w nuts_like) -> nuts_like_init s a = s a) /\
+  ~ In "max_depth" (f_init_w nuts_like) /\
+  nuts_like_store "max_depth" = Some 5%Z /\
+  nuts_like_init (clear_store None (f_state nuts_like ++ f_hist nuts_like) nuts_like_store) "max_depth" = None.
+Proof. exact reinit_refuted. Qed.
+Print Assumptions C14_reinitialize_refuted.
+
+(* REFUTED outside the guard random_ok (part of footprint_ok): C14_resume_footprint asks the fresh sampler to agree
+   with the original one on everything runs do not write; a randomised initialisation result that step reads and
+   get_state does not save breaks that premise although the footprint inclusion itself holds.  This is exactly
+   RegularizedLinearRTO._stepsize -- signature RegularizedLinearRTO.step|hidden-random-outside-state:_stepsize *)
+Theorem C14_resume_refuted :
+  footprint_ok [] rto_like = false /\ footprint_ok ["_stepsize"] rto_like = true /\
+  (forall s r a, ~ In a (run_writes rto_like) -> rto_like_step s r a = s a) /\
+  (forall s1 s2 r, agree (sem_reads rto_like) s1 s2 -> agree (f_state rto_like) (rto_like_step s1 r) (rto_like_step s2 r)) /\
+  exists orig fresh : store Z,
+    (forall b, b <> "_stepsize" -> fresh b = orig b) /\
+    runS Z Z rto_like_step (load_store (f_state rto_like) (runS Z Z rto_like_step orig [1%Z]) fresh) [1%Z] "current_point"
+    <> runS Z Z rto_like_step (runS Z Z rto_like_step orig [1%Z]) [1%Z] "current_point".
+Proof. exact hidden_random_refuted. Qed.
+Print Assumptions C14_resume_refuted.
+
 (* non-vacuity: a two-component state whose second component is not saved and not read satisfies the hypotheses
    of C14_resume; a small fact record satisfies footprint_ok and reinit_ok; the trace instance runs *)
-Local Open Scope string_scope.
 Example C14_example :
   (let step := fun (_ : unit) (s : Z * Z) (r : Z) => ((fst s + r, snd s + 1), fst s)%Z in
    let proj := fun s : Z * Z => fst s in
@@ -207,7 +245,5 @@ Example C14_example :
   check_exp [100; 101; 102; 103; 104]%Z [TSample 2; TResume; TSample 2] [103; 104]%Z 3
             [(101, 0%nat); (102, 1%nat); (103, 0%nat); (104, 1%nat)]%Z [] = true.
 Proof.
-  repeat split.
-  - intros c s1 s2 r E. cbn in *. rewrite E. reflexivity.
-  - intros c s1 s2 r E. cbn in *. exact E.
+  repeat split; intros; try (vm_compute; reflexivity); cbn in *; congruence.
 Qed.
